@@ -131,7 +131,7 @@ prop("C09",
 
 prop("C10",
      specgen=(40, 1500),
-     scripts=lambda tier, rnd: S.stop_points() + [x for x in S.backpressure() if "stop" in x["tags"] or "end" in x["tags"]] + S.lis_fail() + S.life_cycle() + [x for x in S.slow_callbacks() if "end" in x["tags"]] + S.gated() + S.fsm_points() + S.api_races() + S.pm_busy() + S.pm_gates() + S.close_race_connect(12 if tier == "thorough" else 4) + S.stop_dial_race(12 if tier == "thorough" else 3) +
+     scripts=lambda tier, rnd: S.stop_points() + [x for x in S.backpressure() if "stop" in x["tags"] or "end" in x["tags"]] + S.lis_fail() + S.life_cycle() + [x for x in S.admission() if "-other" in x["id"] or "unspec" in x["id"]][:16] + [x for x in S.slow_callbacks() if "end" in x["tags"]] + S.gated() + S.fsm_points() + S.api_races() + S.pm_busy() + S.pm_gates() + S.close_race_connect(12 if tier == "thorough" else 4) + S.stop_dial_race(12 if tier == "thorough" else 3) +
      S.stop_everywhere(rnd, 1200 if tier == "thorough" else 60),
      mc=lambda tier: [mc_pair(["openLo", "ka"])] if tier == "quick" else
      [mc_pair(["openLo", "ka", "upd"], dials=2), mc_pair(["openHi", "ka", "notif"], dials=2),
@@ -178,7 +178,7 @@ prop("C06",
           "KEEPALIVE and Hold Timer Expired NOTIFICATION must carry exactly the specified virtual timestamp")
 
 prop("C04",
-     scripts=lambda tier, rnd: S.writers() + S.backpressure() + S.two_sessions() + S.slow_callbacks() + S.writers_random(rnd, 500 if tier == "thorough" else 12),
+     scripts=lambda tier, rnd: S.writers() + S.backpressure() + [x for x in S.gated() if "onest" in x["id"] or "update" in x["id"]] + S.two_sessions() + S.slow_callbacks() + S.writers_random(rnd, 500 if tier == "thorough" else 12),
      mc=lambda tier: [mc_pair(["openLo", "ka", "upd"], conns=1, msgs=3)] +
      ([mc_timed(8, 1, 3, False, ("open3", "ka", "upd"), stall=True)] if tier == "thorough" else [mc_timed(5, 1, 3, False, ("open3", "ka"), stall=True)]),
      nontrivial=lambda s, r: any(e["e"] == "ret" and e["n"] in ("write", "writeCb") for e in syscheck.events_of(r)),
